@@ -255,6 +255,59 @@ def rule_activation_names(rep, repo):
                (before, e), loc=loc)
 
 
+def rule_batchnorm_selection(rep, repo, unit, loc):
+  """A batch normalisation is converted when the dictionary NAMES it - by
+  layer name or through the class entry - also when the entry is the empty
+  dictionary the documentation shows (`"QBatchNormalization": {}`: default
+  quantizers); the layer-name entry has precedence; an unnamed layer is left
+  alone."""
+  bns = [L("BatchNormalization", "bn_a", axis=-1),
+         L("BatchNormalization", "bn_b", axis=-1)]
+  qkeys = ("gamma_quantizer", "beta_quantizer", "mean_quantizer",
+           "variance_quantizer")
+  cases = [
+      ("empty class entry", {"QBatchNormalization": {}},
+       {"bn_a": {}, "bn_b": {}}),
+      ("empty name entry", {"bn_b": {}}, {"bn_b": {}}),
+      ("empty name entry beside a class entry",
+       {"bn_a": {}, "QBatchNormalization": {"gamma_quantizer": "G"}},
+       {"bn_a": {}, "bn_b": {"gamma_quantizer": "G"}}),
+      ("name entry only", {"bn_a": {"beta_quantizer": "B"}},
+       {"bn_a": {"beta_quantizer": "B"}}),
+      ("no entry", {"QDense": {"kernel_quantizer": "K"}}, {}),
+  ]
+  for label, qd, want in cases:
+    try:
+      jm, _, _ = run_mq(repo, _copy.deepcopy(bns), _copy.deepcopy(qd))
+    except PyRaise as e:
+      rep.fail("R6", unit, "raises:BatchNormalization:%s" % e.exc_name,
+               "model_quantize raises %s on batch-normalisation layers with "
+               "%s" % (e, label), loc=loc, instance=label)
+      continue
+    got = by_name(jm)
+    for lyr in bns:
+      name = lyr["config"]["name"]
+      g = got.get(name)
+      inst = "%s/%s" % (label, name)
+      if name in want:
+        exp = {k: want[name].get(k) for k in qkeys}
+        have = {k: g["config"].get(k, "<absent>") for k in qkeys} \
+            if g is not None else None
+        rep.check(g is not None and g["class_name"] ==
+                  "QBatchNormalization" and have == exp, "R7", unit,
+                  "batchnorm-named-but-not-converted",
+                  "dictionary %r (%s): layer %s becomes %s with %r, expected "
+                  "QBatchNormalization with %r" % (
+                      qd, label, name, g and g["class_name"], have, exp),
+                  loc=loc, instance=inst,
+                  observed="%s %r" % (g and g["class_name"], have))
+      else:
+        rep.check(g is not None and norm(g) == norm(lyr), "R4", unit,
+                  "batchnorm-not-named-but-changed",
+                  "dictionary %r (%s): layer %s is not named but becomes "
+                  "%r" % (qd, label, name, g), loc=loc, instance=inst)
+
+
 def rule_full_dictionary(rep, repo, unit, loc):
   """Every class entry carries every optional key as well (an activation
   quantizer, the batch-norm moving-statistics quantizers) and every layer has
@@ -448,6 +501,7 @@ def run(rep, repo, tier):
                  (e, dname), loc=loc)
 
   rule_full_dictionary(rep, repo, unit, loc)
+  rule_batchnorm_selection(rep, repo, unit, loc)
 
   def expect(name, cls, **keys):
     l = converted.get(name)
